@@ -74,7 +74,15 @@ type expectCase struct {
 	ElapsedMs     int64   `json:"elapsed_ms"`
 	Retried       bool    `json:"retried,omitempty"`
 	FirstVerdict  string  `json:"first_verdict,omitempty"`
+	// Rerun: the same Session value is run a second time.  First holds the lines of the first run (which passed: every
+	// expected output then carries the bindings of its match); Steps holds the lines of the second run, whose verdict
+	// is the case's.  An output that was met in an earlier run is not met again by this run's stream: in the Coq
+	// rendering it is an output nothing matches.
+	Rerun bool    `json:"rerun,omitempty"`
+	First []eStep `json:"first_run,omitempty"`
 }
+
+const eDeadPattern = "<met in an earlier run>"
 
 // JS renders the guard as ECMAScript (the interpreter wraps it in a function).
 func (gd eGuard) JS() string {
@@ -130,6 +138,10 @@ func (c *expectCase) coq() (string, bool) {
 			gd, ok2 := o.Guard.coq()
 			if !(ok1 && ok2) {
 				return "", false
+			}
+			if c.Rerun && !o.Inverted {
+				p, _ = coqJSON(eDeadPattern)
+				gd, _ = eGuard{Kind: "none"}.coq()
 			}
 			outs = append(outs, fmt.Sprintf("(out %s %s %s)", p, gd, coqBool(o.Inverted)))
 		}
@@ -210,6 +222,32 @@ func (c *expectCase) session(T time.Duration) (*expect.Session, error) {
 // runExpect runs the session once with step timeout T.
 func (c *expectCase) runExpect(T time.Duration) (verdict, errText string, elapsed time.Duration) {
 	s, err := c.session(T)
+	if c.Rerun && err == nil {
+		first := *c
+		first.Steps, first.Rerun = c.First, false
+		s, err = first.session(T)
+		if err == nil {
+			ctx1, cancel1 := context.WithTimeout(context.Background(), 8*T+4*time.Second)
+			func() {
+				defer func() {
+					if r := recover(); r != nil {
+						err = fmt.Errorf("panic in the first run: %v", r)
+					}
+				}()
+				err = s.Run(ctx1, "", "cat")
+			}()
+			cancel1()
+			if err != nil {
+				return "fail", "harness: the first run did not pass: " + err.Error(), 0
+			}
+			for i := range s.IOs {
+				s.IOs[i].Inputs = []interface{}{}
+				for _, l := range c.Steps[i].Lines {
+					s.IOs[i].Inputs = append(s.IOs[i].Inputs, l.Text)
+				}
+			}
+		}
+	}
 	if err != nil {
 		return "fail", "harness: " + err.Error(), 0
 	}
@@ -763,6 +801,39 @@ func expectComponent(g *G, n int, opts map[string]string) *Out {
 		os.Exit(0)
 	}
 	runInWorkers(cases, opts, T, par, o)
+	if opts["replay"] == "" {
+		// second runs of Session values whose first run passed (a handful: each costs a timeout)
+		var reruns []*expectCase
+		for _, c := range cases {
+			if len(reruns) >= 6 {
+				break
+			}
+			if c.Verdict != "pass" || c.Rerun || len(c.Steps) == 0 {
+				continue
+			}
+			expected := false
+			for _, st := range c.Steps {
+				for _, out := range st.Outputs {
+					if !out.Inverted {
+						expected = true
+					}
+				}
+			}
+			if !expected {
+				continue
+			}
+			r := &expectCase{Kind: "rerun", ParsePatterns: c.ParsePatterns, TimeoutMode: c.TimeoutMode, Rerun: true, First: c.Steps}
+			for _, st := range c.Steps {
+				r.Steps = append(r.Steps, eStep{Outputs: st.Outputs,
+					Lines: []eLine{{Text: "not json", Noise: true}, jsonLine(map[string]interface{}{"unrelated": float64(len(reruns))})}})
+			}
+			reruns = append(reruns, r)
+		}
+		if len(reruns) > 0 {
+			runInWorkers(reruns, opts, T, par, o)
+			cases = append(cases, reruns...)
+		}
+	}
 	for _, c := range cases {
 		term, ok := c.coq()
 		if !ok {
